@@ -418,6 +418,7 @@ func runC12(c *Ctx) {
 	}
 	// 3. concurrent clients against real servers: each handler sees its own request, each client its own reply
 	c12BufferReuse(c, r)
+	c12TsigWhileOthers(c)
 	c12IgnoredThenQueries(c, r, "udp")
 	c12IgnoredThenQueries(c, r, "pc")
 	heldDatagrams(c, r, "udp")
